@@ -398,6 +398,512 @@ theorem rdbi_pad2_rejected (cfg : DidCfg) (l : List (Nat × Bytes)) (n : Nat) (h
   simp only [ht, hu, bind, Except.bind, Bool.and_false, Bool.false_and, Bool.false_eq_true, if_false, fetchCodec, h0]
   rfl
 
+/-! ### snapshot records by DTC number (0x04 / 0x18) followed by zero bytes -/
+
+theorem snapByDtcLoop_prefix (c : DtcCfg) (gs : List (Nat × List Snap)) (tail : Bytes) (acc : List Snap) (h : ∀ g ∈ gs, GroupOk c g) :
+    snapByDtcLoop c (encSnapGroups c.didSize gs ++ tail) acc = snapByDtcLoop c tail (acc ++ (gs.map (·.2)).flatten) := by
+  induction gs generalizing acc with
+  | nil => simp [encSnapGroups]
+  | cons g rest ih =>
+    obtain ⟨rec, l⟩ := g
+    obtain ⟨hr, hl1, hl2, hs⟩ := h (rec, l) (by simp)
+    simp only at hr hl1 hl2 hs
+    have hn0 : UInt8.ofNat l.length ≠ 0 := by
+      intro h0
+      have := congrArg UInt8.toNat h0
+      rw [toNat_ofNat_lt hl2] at this
+      have : l.length = 0 := this
+      omega
+    have hE : encSnapGroups c.didSize ((rec, l) :: rest) ++ tail =
+        UInt8.ofNat rec :: UInt8.ofNat l.length :: (encSnapDids c.didSize l ++ (encSnapGroups c.didSize rest ++ tail)) := by
+      simp [encSnapGroups]
+    rw [hE, snapByDtcLoop]
+    have hlen0 : ¬ (UInt8.ofNat rec :: UInt8.ofNat l.length :: (encSnapDids c.didSize l ++ (encSnapGroups c.didSize rest ++ tail))).length = 0 := by simp
+    have hz : (c.tol && allZero (UInt8.ofNat rec :: UInt8.ofNat l.length :: (encSnapDids c.didSize l ++ (encSnapGroups c.didSize rest ++ tail)))) = false := by
+      rw [allZero_cons_ne hn0]; simp
+    have hlen2 : ¬ (UInt8.ofNat rec :: UInt8.ofNat l.length :: (encSnapDids c.didSize l ++ (encSnapGroups c.didSize rest ++ tail))).length < 2 := by simp
+    rw [dif_neg hlen0]
+    simp only [hz, Bool.false_eq_true, if_false]
+    rw [dif_neg hlen2]
+    have hnz : (l.length == 0) = false := by simpa using (show l.length ≠ 0 by omega)
+    have hge := encSnapDids_length_ge c.didSize l hl1
+    have hlenk : ¬ (UInt8.ofNat rec :: UInt8.ofNat l.length :: (encSnapDids c.didSize l ++ (encSnapGroups c.didSize rest ++ tail))).length < 2 + c.didSize := by
+      simp only [List.length_cons, List.length_append]; omega
+    simp only [idx_cons0', idx_cons1', bind, Except.bind, toNat_ofNat_lt hr, toNat_ofNat_lt hl2, hnz, Bool.false_eq_true, if_false, hlenk,
+      List.drop_succ_cons, List.drop_zero,
+      snapDids_roundtrip c.dids c.didSize rec l (encSnapGroups c.didSize rest ++ tail) acc hs]
+    have hshort : (encSnapGroups c.didSize rest ++ tail).length <
+        (UInt8.ofNat rec :: UInt8.ofNat l.length :: (encSnapDids c.didSize l ++ (encSnapGroups c.didSize rest ++ tail))).length := by
+      simp only [List.length_cons, List.length_append]; omega
+    rw [if_pos hshort, ih _ (fun g hg => h g (by simp [hg]))]
+    simp
+
+theorem snapByDtcLoop_zeros_tolerated (c : DtcCfg) (n : Nat) (acc : List Snap) (ht : c.tol = true) : snapByDtcLoop c (zeros n) acc = .ok acc := by
+  rw [snapByDtcLoop]
+  by_cases h0 : (zeros n).length = 0
+  · rw [dif_pos h0]; rfl
+  · rw [dif_neg h0]; simp [ht, allZero_zeros, pure, Except.pure]
+
+theorem snapByDtcLoop_zeros_rejected (c : DtcCfg) (n : Nat) (acc : List Snap) (ht : c.tol = false) (hn : 0 < n) : snapByDtcLoop c (zeros n) acc = .error .invalid := by
+  rw [snapByDtcLoop]
+  have h0 : ¬ (zeros n).length = 0 := by simp [zeros]; omega
+  rw [dif_neg h0]
+  simp only [ht, Bool.false_and, Bool.false_eq_true, if_false]
+  by_cases h2 : (zeros n).length < 2
+  · rw [dif_pos h2]; rfl
+  · rw [dif_neg h2]
+    have hn2 : 2 ≤ n := by simp [zeros] at h2; omega
+    obtain ⟨m, rfl⟩ : ∃ m, n = m + 2 := ⟨n - 2, by omega⟩
+    have : zeros (m + 2) = 0 :: 0 :: zeros m := by simp [zeros, List.replicate_succ]
+    rw [this]
+    simp [idx_cons0', idx_cons1', bind, Except.bind]
+
+/-- **snapshot by DTC number, tolerated**: any number of zero bytes after the last record changes nothing -/
+theorem snap_pad_tolerated (c : DtcCfg) (gs : List (Nat × List Snap)) (n : Nat) (acc : List Snap) (ht : c.tol = true) (h : ∀ g ∈ gs, GroupOk c g) :
+    snapByDtcLoop c (encSnapGroups c.didSize gs ++ zeros n) acc = snapByDtcLoop c (encSnapGroups c.didSize gs) acc := by
+  rw [snapByDtcLoop_prefix c gs _ acc h, snapByDtcLoop_zeros_tolerated c n _ ht, snapByDtc_loop_roundtrip c gs acc h]
+
+/-- **not tolerated**: any trailing zero byte is an invalid response (one byte: incomplete; more: a record with no identifier) -/
+theorem snap_pad_rejected (c : DtcCfg) (gs : List (Nat × List Snap)) (n : Nat) (acc : List Snap) (ht : c.tol = false) (hn : 0 < n) (h : ∀ g ∈ gs, GroupOk c g) :
+    snapByDtcLoop c (encSnapGroups c.didSize gs ++ zeros n) acc = .error .invalid := by
+  rw [snapByDtcLoop_prefix c gs _ acc h, snapByDtcLoop_zeros_rejected c n _ ht hn]
+
+/-- the whole interpreter on sub-function 0x04: tolerated zero padding gives the unpadded result -/
+theorem snapByDtc_pad_tolerated (c : DtcCfg) (sf : Nat) (e st : UInt8) (id : Nat) (gs : List (Nat × List Snap)) (n : Nat) (hms : hasMemSel sf = false)
+    (hid : id < 2 ^ 24) (hk : 1 ≤ c.didSize ∧ c.didSize ≤ 8) (ht : c.tol = true) (h : ∀ g ∈ gs, GroupOk c g) :
+    snapByDtcInterpret c sf (e :: (toBE 3 id ++ st :: (encSnapGroups c.didSize gs ++ zeros n))) =
+      .ok { sfEcho := e.toNat, count := 1, dtcs := [{ id := id, status := st.toNat, snaps := (gs.map (·.2)).flatten }] } := by
+  have hdrop1 : (e :: (toBE 3 id ++ st :: (encSnapGroups c.didSize gs ++ zeros n))).drop 1 = toBE 3 id ++ st :: (encSnapGroups c.didSize gs ++ zeros n) := rfl
+  have hbe : be3 (toBE 3 id ++ st :: (encSnapGroups c.didSize gs ++ zeros n)) = id := be3_toBE id _ hid
+  have hst : idx (e :: (toBE 3 id ++ st :: (encSnapGroups c.didSize gs ++ zeros n))) 4 = .ok st := by simp [idx, toBE, pure, Except.pure]
+  have hd5 : (e :: (toBE 3 id ++ st :: (encSnapGroups c.didSize gs ++ zeros n))).drop 5 = encSnapGroups c.didSize gs ++ zeros n := by simp [toBE]
+  simp only [snapByDtcInterpret, hms, Bool.false_eq_true, if_false, bind_ok, guardPy_ok, pure_ok, optByte]
+  refine ⟨e, idx_cons0' _ _, (), (by simp only [List.length_cons, List.length_append, toBE_length]; simp; omega), none, rfl, st, hst, (),
+    (by simp; omega), (gs.map (·.2)).flatten, ?_, ?_⟩
+  · rw [hd5, snap_pad_tolerated c gs n [] ht h]; simpa using snapByDtc_loop_roundtrip c gs [] h
+  · rw [hdrop1, hbe]
+
+/-- … and with tolerance off any trailing zero byte makes the reply invalid -/
+theorem snapByDtc_pad_rejected (c : DtcCfg) (sf : Nat) (e st : UInt8) (id : Nat) (gs : List (Nat × List Snap)) (n : Nat) (hms : hasMemSel sf = false)
+    (hk : 1 ≤ c.didSize ∧ c.didSize ≤ 8) (ht : c.tol = false) (hn : 0 < n) (h : ∀ g ∈ gs, GroupOk c g) :
+    snapByDtcInterpret c sf (e :: (toBE 3 id ++ st :: (encSnapGroups c.didSize gs ++ zeros n))) = .error .invalid := by
+  have hst : idx (e :: (toBE 3 id ++ st :: (encSnapGroups c.didSize gs ++ zeros n))) 4 = .ok st := by simp [idx, toBE, pure, Except.pure]
+  have hd5 : (e :: (toBE 3 id ++ st :: (encSnapGroups c.didSize gs ++ zeros n))).drop 5 = encSnapGroups c.didSize gs ++ zeros n := by simp [toBE]
+  have hg1 : guardPy (decide ((e :: (toBE 3 id ++ st :: (encSnapGroups c.didSize gs ++ zeros n))).length < 5)) PyErr.invalid = .ok () :=
+    guardPy_ok.2 (by simp only [List.length_cons, List.length_append, toBE_length]; simp; omega)
+  have hg2 : guardPy (decide (c.didSize < 1 || c.didSize > 8)) PyErr.valueErr = .ok () := guardPy_ok.2 (by simp; omega)
+  simp only [snapByDtcInterpret, hms, Bool.false_eq_true, if_false, optByte, idx_cons0', hg1, hg2, hst, hd5, snap_pad_rejected c gs n [] ht hn h,
+    bind, Except.bind, pure, Except.pure]
+
+/-! ### snapshot records by record number (0x05) followed by zero bytes -/
+
+theorem snapByRecordLoop_prefix (c : DtcCfg) (ps : List (Nat × DtcRec)) (tail : Bytes) (acc : List DtcRec) (h : ∀ p ∈ ps, SnapRecOk c p) :
+    snapByRecordLoop c (encSnapRecs c.didSize ps ++ tail) acc = snapByRecordLoop c tail (acc ++ ps.map (·.2)) := by
+  induction ps generalizing acc with
+  | nil => simp [encSnapRecs]
+  | cons p rest ih =>
+    obtain ⟨rec, r⟩ := p
+    obtain ⟨hr, hid, hst, hl1, hl2, hs, hnz, hsev, hfu, hfa, hex⟩ := h (rec, r) (by simp)
+    simp only at hr hid hst hl1 hl2 hs hnz hsev hfu hfa hex
+    have hn0 : UInt8.ofNat r.snaps.length ≠ 0 := by
+      intro h0
+      have := congrArg UInt8.toNat h0
+      rw [toNat_ofNat_lt hl2] at this
+      have : r.snaps.length = 0 := this
+      omega
+    -- the encoded record, spelled out
+    have henc : encSnapRecs c.didSize ((rec, r) :: rest) ++ tail =
+        UInt8.ofNat rec :: (toBE 3 r.id ++ UInt8.ofNat r.status :: UInt8.ofNat r.snaps.length :: (encSnapDids c.didSize r.snaps ++ (encSnapRecs c.didSize rest ++ tail))) := by
+      simp [encSnapRecs, encSnapRec]
+    have hge := encSnapDids_length_ge c.didSize r.snaps hl1
+    rw [henc, snapByRecordLoop]
+    have t3 : (toBE 3 r.id).length = 3 := by simp
+    have hlen0 : ¬ (UInt8.ofNat rec :: (toBE 3 r.id ++ UInt8.ofNat r.status :: UInt8.ofNat r.snaps.length :: (encSnapDids c.didSize r.snaps ++ (encSnapRecs c.didSize rest ++ tail)))).length = 0 := by simp
+    have haz : allZero (UInt8.ofNat rec :: (toBE 3 r.id ++ UInt8.ofNat r.status :: UInt8.ofNat r.snaps.length :: (encSnapDids c.didSize r.snaps ++ (encSnapRecs c.didSize rest ++ tail)))) = false := by
+      simp [allZero, hn0]
+    have haz1 : allZero ((UInt8.ofNat rec :: (toBE 3 r.id ++ UInt8.ofNat r.status :: UInt8.ofNat r.snaps.length :: (encSnapDids c.didSize r.snaps ++ (encSnapRecs c.didSize rest ++ tail)))).drop 1) = false := by
+      simp [allZero, hn0]
+    have hlen1 : ((UInt8.ofNat rec :: (toBE 3 r.id ++ UInt8.ofNat r.status :: UInt8.ofNat r.snaps.length :: (encSnapDids c.didSize r.snaps ++ (encSnapRecs c.didSize rest ++ tail)))).length == 1) = false := by
+      simp
+    rw [dif_neg hlen0]
+    simp only [haz, Bool.false_and, Bool.false_eq_true, if_false, hlen1, haz1, Bool.and_false, Bool.or_self]
+    rw [dif_neg (by simp only [List.length_cons, List.length_append, t3]; omega), dif_neg (by simp only [List.length_cons, List.length_append, t3]; omega)]
+    have i0 : idx (UInt8.ofNat rec :: (toBE 3 r.id ++ UInt8.ofNat r.status :: UInt8.ofNat r.snaps.length :: (encSnapDids c.didSize r.snaps ++ (encSnapRecs c.didSize rest ++ tail)))) 0 = .ok (UInt8.ofNat rec) := by
+      simp [idx, pure, Except.pure]
+    have i4 : idx (UInt8.ofNat rec :: (toBE 3 r.id ++ UInt8.ofNat r.status :: UInt8.ofNat r.snaps.length :: (encSnapDids c.didSize r.snaps ++ (encSnapRecs c.didSize rest ++ tail)))) 4 = .ok (UInt8.ofNat r.status) := by
+      simp [idx, toBE, pure, Except.pure]
+    have i5 : idx (UInt8.ofNat rec :: (toBE 3 r.id ++ UInt8.ofNat r.status :: UInt8.ofNat r.snaps.length :: (encSnapDids c.didSize r.snaps ++ (encSnapRecs c.didSize rest ++ tail)))) 5 = .ok (UInt8.ofNat r.snaps.length) := by
+      simp [idx, toBE, pure, Except.pure]
+    have hd6 : (UInt8.ofNat rec :: (toBE 3 r.id ++ UInt8.ofNat r.status :: UInt8.ofNat r.snaps.length :: (encSnapDids c.didSize r.snaps ++ (encSnapRecs c.didSize rest ++ tail)))).drop 6 =
+        encSnapDids c.didSize r.snaps ++ (encSnapRecs c.didSize rest ++ tail) := by simp [toBE]
+    have hd1 : be3 ((UInt8.ofNat rec :: (toBE 3 r.id ++ UInt8.ofNat r.status :: UInt8.ofNat r.snaps.length :: (encSnapDids c.didSize r.snaps ++ (encSnapRecs c.didSize rest ++ tail)))).drop 1) = r.id := by
+      simp only [List.drop_succ_cons, List.drop_zero]; exact be3_toBE _ _ hid
+    have hnz' : (r.snaps.length == 0) = false := by simpa using (show r.snaps.length ≠ 0 by omega)
+    have hbody : ¬ (encSnapDids c.didSize r.snaps ++ (encSnapRecs c.didSize rest ++ tail)).length < c.didSize := by simp; omega
+    have hbz : (c.tol && allZero (encSnapDids c.didSize r.snaps ++ (encSnapRecs c.didSize rest ++ tail))) = false := by
+      rcases hnz with h | h
+      · simp [h]
+      · rw [allZero_append, h]; simp
+    simp only [i0, i4, i5, bind, Except.bind, toNat_ofNat_lt hr, toNat_ofNat_lt hst, toNat_ofNat_lt hl2, hnz', Bool.false_eq_true, if_false, hd6, hbody, hbz,
+      snapDids_roundtrip c.dids c.didSize rec r.snaps (encSnapRecs c.didSize rest ++ tail) [] hs, hd1]
+    have hshort : (encSnapRecs c.didSize rest ++ tail).length <
+        (UInt8.ofNat rec :: (toBE 3 r.id ++ UInt8.ofNat r.status :: UInt8.ofNat r.snaps.length :: (encSnapDids c.didSize r.snaps ++ (encSnapRecs c.didSize rest ++ tail)))).length := by
+      simp only [List.length_cons, List.length_append]; omega
+    rw [if_pos hshort, ih _ (fun p hp => h p (by simp [hp]))]
+    have : ({ id := r.id, status := r.status, snaps := [] ++ r.snaps } : DtcRec) = r := by cases r; simp_all
+    rw [this]; simp
+
+
+theorem snapByRecordLoop_zeros_tolerated (c : DtcCfg) (n : Nat) (acc : List DtcRec) (ht : c.tol = true) : snapByRecordLoop c (zeros n) acc = .ok acc := by
+  rw [snapByRecordLoop]
+  by_cases h0 : (zeros n).length = 0
+  · rw [dif_pos h0]; rfl
+  · rw [dif_neg h0]; simp [ht, allZero_zeros, pure, Except.pure]
+
+/-- with tolerance off a single trailing byte is read as a record number without DTC (the reply "no DTC stored for this record") -/
+theorem snapByRecordLoop_zero1 (c : DtcCfg) (acc : List DtcRec) (ht : c.tol = false) : snapByRecordLoop c (zeros 1) acc = .ok acc := by
+  rw [snapByRecordLoop]; simp [ht, zeros, pure, Except.pure]
+
+theorem snapByRecordLoop_zeros_rejected (c : DtcCfg) (n : Nat) (acc : List DtcRec) (ht : c.tol = false) (hn : 2 ≤ n) :
+    snapByRecordLoop c (zeros n) acc = .error .invalid := by
+  rw [snapByRecordLoop]
+  have hl : (zeros n).length = n := by simp [zeros]
+  have h0 : ¬ (zeros n).length = 0 := by omega
+  have h1 : ((zeros n).length == 1) = false := by simp [hl]; omega
+  rw [dif_neg h0]
+  simp only [ht, Bool.and_false, Bool.false_and, Bool.false_eq_true, if_false, h1, Bool.or_self]
+  by_cases h5 : (zeros n).length < 5
+  · rw [dif_pos h5]; rfl
+  · rw [dif_neg h5]
+    by_cases h6 : (zeros n).length < 6
+    · rw [dif_pos h6]; rfl
+    · rw [dif_neg h6]
+      obtain ⟨m, rfl⟩ : ∃ m, n = m + 6 := ⟨n - 6, by omega⟩
+      have : zeros (m + 6) = 0 :: 0 :: 0 :: 0 :: 0 :: 0 :: zeros m := by simp [zeros, List.replicate_succ]
+      rw [this]
+      simp [idx, bind, Except.bind, pure, Except.pure]
+
+/-- **snapshot by record number (0x05), tolerated**: zero bytes after the last record change nothing -/
+theorem snapRec_pad_tolerated (c : DtcCfg) (ps : List (Nat × DtcRec)) (n : Nat) (acc : List DtcRec) (ht : c.tol = true) (h : ∀ p ∈ ps, SnapRecOk c p) :
+    snapByRecordLoop c (encSnapRecs c.didSize ps ++ zeros n) acc = .ok (acc ++ ps.map (·.2)) := by
+  rw [snapByRecordLoop_prefix c ps _ acc h, snapByRecordLoop_zeros_tolerated c n _ ht]
+
+/-- **not tolerated**: two or more trailing zero bytes are an invalid response -/
+theorem snapRec_pad_rejected (c : DtcCfg) (ps : List (Nat × DtcRec)) (n : Nat) (acc : List DtcRec) (ht : c.tol = false) (hn : 2 ≤ n) (h : ∀ p ∈ ps, SnapRecOk c p) :
+    snapByRecordLoop c (encSnapRecs c.didSize ps ++ zeros n) acc = .error .invalid := by
+  rw [snapByRecordLoop_prefix c ps _ acc h, snapByRecordLoop_zeros_rejected c n _ ht hn]
+
+/-- … while exactly one trailing byte is the record number of a further, empty record: accepted with the same content -/
+theorem snapRec_pad1 (c : DtcCfg) (ps : List (Nat × DtcRec)) (acc : List DtcRec) (ht : c.tol = false) (h : ∀ p ∈ ps, SnapRecOk c p) :
+    snapByRecordLoop c (encSnapRecs c.didSize ps ++ zeros 1) acc = .ok (acc ++ ps.map (·.2)) := by
+  rw [snapByRecordLoop_prefix c ps _ acc h, snapByRecordLoop_zero1 c _ ht]
+
+
+/-! ### RequestFileTransfer: every reply accepted without tolerance, followed by zero bytes -/
+
+theorem idx_append {d : Bytes} (t : Bytes) {i : Nat} {b : UInt8} (h : idx d i = .ok b) : idx (d ++ t) i = .ok b := by
+  unfold idx at *
+  cases hd : d[i]? with
+  | none => simp [hd] at h
+  | some x =>
+    have hi : i < d.length := by
+      rcases Nat.lt_or_ge i d.length with h' | h'
+      · exact h'
+      · rw [List.getElem?_eq_none h'] at hd; cases hd
+    rw [List.getElem?_append_left hi, hd]; simpa [hd] using h
+
+theorem idx_lt {d : Bytes} {i : Nat} {b : UInt8} (h : idx d i = .ok b) : i < d.length := by
+  unfold idx at h
+  rcases Nat.lt_or_ge i d.length with h' | h'
+  · exact h'
+  · rw [List.getElem?_eq_none h'] at h; cases h
+
+theorem readUIntAt_append {d : Bytes} (t : Bytes) {off n v : Nat} (h : readUIntAt d off n = .ok v) : readUIntAt (d ++ t) off n = .ok v := by
+  unfold readUIntAt at *
+  by_cases hle : off + n ≤ d.length
+  · rw [if_pos hle] at h
+    rw [if_pos (by simp; omega)]
+    have : ((d ++ t).drop off).take n = (d.drop off).take n := by
+      rw [List.drop_append_of_le_length (by omega), List.take_append_of_le_length (by simp; omega)]
+    rw [this]; exact h
+  · rw [if_neg hle] at h; cases h
+
+theorem readUIntAt_le {d : Bytes} {off n v : Nat} (h : readUIntAt d off n = .ok v) : off + n ≤ d.length := by
+  unfold readUIntAt at h
+  by_cases hle : off + n ≤ d.length
+  · exact hle
+  · rw [if_neg hle] at h; cases h
+
+theorem rftMaxLen_append (moop : Nat) {d : Bytes} (t : Bytes) {p : Option Nat × Nat} (h1 : 1 ≤ d.length) (h : rftMaxLen moop d = .ok p) :
+    rftMaxLen moop (d ++ t) = .ok p ∧ p.2 ≤ d.length := by
+  unfold rftMaxLen at *
+  by_cases hm : rftHasLfid moop = true
+  · simp only [hm, if_true, bind_ok, guardPy_ok, pure_ok] at h ⊢
+    obtain ⟨_, h1, l, hl, _, h2, _, h3, _, h4, v, hv, hp⟩ := h
+    refine ⟨⟨(), ?_, l, idx_append t hl, (), h2, (), h3, (), ?_, v, readUIntAt_append t hv, hp⟩, ?_⟩
+    · simp at h1 ⊢; omega
+    · simp at h4 ⊢; omega
+    · have := readUIntAt_le hv; rw [← hp]; simpa using this
+  · have hm' : rftHasLfid moop = false := by simpa using hm
+    simp only [hm', Bool.false_eq_true, if_false, pure_ok] at h ⊢
+    exact ⟨h, by rw [← h]; exact h1⟩
+
+theorem rftDfiEcho_append (moop : Nat) {d : Bytes} (t : Bytes) {c1 : Nat} {p : Option Nat × Nat} (hc : c1 ≤ d.length) (h : rftDfiEcho moop d c1 = .ok p) :
+    rftDfiEcho moop (d ++ t) c1 = .ok p ∧ p.2 ≤ d.length := by
+  unfold rftDfiEcho at *
+  by_cases hm : rftHasLfid moop = true
+  · simp only [hm, if_true, bind_ok, guardPy_ok, pure_ok] at h ⊢
+    obtain ⟨_, h1, b, hb, _, h2, hp⟩ := h
+    refine ⟨⟨(), ?_, b, idx_append t hb, (), h2, hp⟩, ?_⟩
+    · simp at h1 ⊢; omega
+    · have := idx_lt hb; rw [← hp]; simp; omega
+  · have hm' : rftHasLfid moop = false := by simpa using hm
+    simp only [hm', Bool.false_eq_true, if_false, pure_ok] at h ⊢
+    exact ⟨h, by rw [← h]; exact hc⟩
+
+theorem take2_append {d : Bytes} (t : Bytes) {c : Nat} (h : c + 2 ≤ d.length) : ((d ++ t).drop c).take 2 = (d.drop c).take 2 := by
+  rw [List.drop_append_of_le_length (by omega), List.take_append_of_le_length (by simp; omega)]
+
+theorem rftSizes_append (moop : Nat) {d : Bytes} (t : Bytes) {c2 : Nat} {p : Option Nat × Option Nat × Nat} (hc : c2 ≤ d.length) (h : rftSizes moop d c2 = .ok p) :
+    rftSizes moop (d ++ t) c2 = .ok p ∧ p.2.2 ≤ d.length := by
+  unfold rftSizes at *
+  by_cases hm : (moop == 4 || moop == 5) = true
+  · simp only [hm, if_true, bind_ok, guardPy_ok] at h ⊢
+    obtain ⟨_, h1, n, hn, _, h2, _, h3, _, h4, u, hu, hrest⟩ := h
+    have h1' : c2 + 2 ≤ d.length := by simp at h1; omega
+    refine ⟨⟨(), by simp at h1 ⊢; omega, n, by rw [take2_append t h1']; exact hn, (), h2, (), h3, (), by simp at h4 ⊢; omega, u, readUIntAt_append t hu, ?_⟩, ?_⟩
+    · by_cases h44 : (moop == 4) = true
+      · simp only [h44, if_true, bind_ok, guardPy_ok, pure_ok] at hrest ⊢
+        obtain ⟨_, h5, c, hcc, hp⟩ := hrest
+        exact ⟨(), by simp at h5 ⊢; omega, c, readUIntAt_append t hcc, hp⟩
+      · have h44' : (moop == 4) = false := by simpa using h44
+        simp only [h44', Bool.false_eq_true, if_false] at hrest ⊢
+        exact hrest
+    · by_cases h44 : (moop == 4) = true
+      · simp only [h44, if_true, bind_ok, guardPy_ok, pure_ok] at hrest
+        obtain ⟨_, h5, c, hcc, hp⟩ := hrest
+        have := readUIntAt_le hcc; rw [← hp]; simpa using this
+      · have h44' : (moop == 4) = false := by simpa using h44
+        simp only [h44', Bool.false_eq_true, if_false, pure_ok] at hrest
+        have := readUIntAt_le hu; rw [← hrest]; simpa using this
+  · have hm' : (moop == 4 || moop == 5) = false := by simpa using hm
+    simp only [hm', Bool.false_eq_true, if_false, pure_ok] at h ⊢
+    exact ⟨h, by rw [← h]; exact hc⟩
+
+theorem rftFilePos_append (moop : Nat) {d : Bytes} (t : Bytes) {c3 : Nat} {p : Option Nat × Nat} (hc : c3 ≤ d.length) (h : rftFilePos moop d c3 = .ok p) :
+    rftFilePos moop (d ++ t) c3 = .ok p ∧ p.2 ≤ d.length := by
+  unfold rftFilePos at *
+  by_cases hm : (moop == 6) = true
+  · simp only [hm, if_true, bind_ok, guardPy_ok, pure_ok] at h ⊢
+    obtain ⟨_, h1, v, hv, hp⟩ := h
+    refine ⟨⟨(), by simp at h1 ⊢; omega, v, readUIntAt_append t hv, hp⟩, ?_⟩
+    have := readUIntAt_le hv; rw [← hp]; simpa using this
+  · have hm' : (moop == 6) = false := by simpa using hm
+    simp only [hm', Bool.false_eq_true, if_false, pure_ok] at h ⊢
+    exact ⟨h, by rw [← h]; exact hc⟩
+
+theorem allZero_drop_append_zeros (d : Bytes) (n k : Nat) (hk : d.length ≤ k) : allZero ((d ++ zeros n).drop k) = true := by
+  rw [List.drop_append, List.drop_of_length_le hk, List.nil_append]
+  simp [allZero, zeros, List.drop_replicate]
+
+/-- every sub-parser of a reply accepted with tolerance off reads the same from the padded reply, and the cursor ends exactly at the end of the reply -/
+theorem rft_parts_append {d : Bytes} {v : SData} (t : Bytes) (h : rftInterpret false d = .ok v) :
+    ∃ m p1 p2 p3 p4, idx (d ++ t) 0 = .ok m ∧ 1 ≤ d.length ∧
+      rftMaxLen m.toNat (d ++ t) = .ok p1 ∧ rftDfiEcho m.toNat (d ++ t) p1.2 = .ok p2 ∧ rftSizes m.toNat (d ++ t) p2.2 = .ok p3 ∧ rftFilePos m.toNat (d ++ t) p3.2.2 = .ok p4 ∧
+      p4.2 = d.length ∧
+      v = .rft m.toNat p1.1 p2.1 (if m.toNat == 4 then p3.1.map (fun u => (u, p3.2.1)) else none) (if m.toNat == 5 then p3.1 else none) p4.1 := by
+  simp only [rftInterpret, bind_ok, guardPy_ok, pure_ok] at h
+  obtain ⟨_, h0, m, hm, p1, h1, p2, h2, p3, h3, p4, h4, _, hg, hv⟩ := h
+  have hlen : 1 ≤ d.length := by have := idx_lt hm; omega
+  obtain ⟨a1, b1⟩ := rftMaxLen_append m.toNat t hlen h1
+  obtain ⟨a2, b2⟩ := rftDfiEcho_append m.toNat t b1 h2
+  obtain ⟨a3, b3⟩ := rftSizes_append m.toNat t b2 h3
+  obtain ⟨a4, b4⟩ := rftFilePos_append m.toNat t b3 h4
+  refine ⟨m, p1, p2, p3, p4, idx_append t hm, hlen, a1, a2, a3, a4, ?_, hv.symm⟩
+  have : ¬ d.length > p4.2 := by intro hgt; simp [hgt] at hg
+  omega
+
+/-- **tolerated**: a RequestFileTransfer reply accepted as it stands is accepted with the same content when any number of zero bytes follow -/
+theorem rft_pad_tolerated (d : Bytes) (v : SData) (n : Nat) (h : rftInterpret false d = .ok v) : rftInterpret true (d ++ zeros n) = .ok v := by
+  obtain ⟨m, p1, p2, p3, p4, hm, hlen, a1, a2, a3, a4, hc, hv⟩ := rft_parts_append (zeros n) h
+  simp only [rftInterpret, bind_ok, guardPy_ok, pure_ok]
+  have hl : (d ++ zeros n).length = d.length + n := by simp [zeros]
+  refine ⟨(), decide_eq_false (by rw [hl]; omega), m, hm, p1, a1, p2, a2, p3, a3, p4, a4, (), ?_, hv.symm⟩
+  rw [allZero_drop_append_zeros d n p4.2 (by omega)]; simp
+
+/-- **not tolerated**: the same reply followed by at least one zero byte is an invalid response -/
+theorem rft_pad_rejected (d : Bytes) (v : SData) (n : Nat) (hn : 0 < n) (h : rftInterpret false d = .ok v) : rftInterpret false (d ++ zeros n) = .error .invalid := by
+  obtain ⟨m, p1, p2, p3, p4, hm, hlen, a1, a2, a3, a4, hc, hv⟩ := rft_parts_append (zeros n) h
+  have hl : (d ++ zeros n).length = d.length + n := by simp [zeros]
+  have hg0 : guardPy (decide ((d ++ zeros n).length < 1)) PyErr.invalid = .ok () := guardPy_ok.2 (decide_eq_false (by rw [hl]; omega))
+  have hlast : (decide ((d ++ zeros n).length > p4.2) && !(allZero ((d ++ zeros n).drop p4.2) && false)) = true := by
+    have : decide ((d ++ zeros n).length > p4.2) = true := decide_eq_true (by rw [hl]; omega)
+    rw [this]; simp
+  simp only [rftInterpret, hg0, hm, a1, a2, a3, a4, hlast, bind, Except.bind]
+  rfl
+
+/-- tolerance never changes what an unpadded reply decodes to -/
+theorem rft_tol_irrelevant_unpadded (d : Bytes) (v : SData) (h : rftInterpret false d = .ok v) : rftInterpret true d = .ok v := by
+  have := rft_pad_tolerated d v 0 h
+  simpa [zeros] using this
+
+/-- the client call: same verdict and content for the padded reply under tolerance as for the reply itself -/
+theorem rftClient_pad_tolerated (moop : Nat) (dfi : Option Nat) (d : Bytes) (v : SData) (n : Nat) (h : rftInterpret false d = .ok v) :
+    rftClient moop dfi true (d ++ zeros n) = rftClient moop dfi false d := by
+  unfold rftClient; rw [rft_pad_tolerated d v n h, h]; cases v <;> rfl
+
+example : rftInterpret false (encRftHead 1 2 0x1000 0) = .ok (.rft 1 (some 0x1000) (some 0) none none none) :=
+  rft_roundtrip_head 1 2 0x1000 0 false (Or.inl rfl) (by decide) (by decide) (by decide)
+
+
+/-! ### extended data by record number (0x16) followed by zero bytes -/
+
+theorem extByRecordLoop_prefix (c : DtcCfg) (rec : Nat) (rs : List DtcRec) (tail : Bytes) (seen : List Nat) (acc : List DtcRec)
+    (h : ∀ r ∈ rs, ExtRecOk c rec r) (hnd : (seen ++ rs.map (·.id)).Nodup) :
+    extByRecordLoop c rec (encExtRecs rs ++ tail) seen acc = extByRecordLoop c rec tail ((rs.map (·.id)).reverse ++ seen) (acc ++ rs) := by
+  induction rs generalizing seen acc with
+  | nil => simp [encExtRecs]
+  | cons r rest ih =>
+    obtain ⟨hid, hst, ⟨data, hext, hsz⟩, hnz, hsev, hfu, hfa, hsn⟩ := h r (by simp)
+    have henc : encExtRecs (r :: rest) ++ tail = toBE 3 r.id ++ (UInt8.ofNat r.status :: (data ++ (encExtRecs rest ++ tail))) := by
+      simp [encExtRecs, encExtRec, hext]
+    have hrec : encExtRec r = toBE 3 r.id ++ (UInt8.ofNat r.status :: data) := by simp [encExtRec, hext]
+    have haz : allZero (encExtRecs (r :: rest) ++ tail) = false := by
+      have : encExtRecs (r :: rest) ++ tail = encExtRec r ++ (encExtRecs rest ++ tail) := by simp [encExtRecs]
+      rw [this, allZero_append, hnz]; rfl
+    rw [extByRecordLoop]
+    have hlen0 : ¬ (encExtRecs (r :: rest) ++ tail).length = 0 := by rw [henc]; simp
+    rw [dif_neg hlen0]
+    simp only [haz, Bool.false_and, Bool.false_eq_true, if_false]
+    have hlen4 : ¬ (encExtRecs (r :: rest) ++ tail).length < 4 := by rw [henc]; simp; omega
+    rw [dif_neg hlen4]
+    have hbe : be3 (encExtRecs (r :: rest) ++ tail) = r.id := by rw [henc]; exact be3_toBE _ _ hid
+    have hnot : seen.contains r.id = false := by
+      rw [List.map_cons] at hnd
+      have := (List.nodup_append.1 hnd).2.2
+      cases hc : seen.contains r.id with
+      | false => rfl
+      | true =>
+        exfalso
+        rw [List.contains_iff_mem] at hc
+        exact this r.id hc r.id (by simp) rfl
+    have i3 : idx (encExtRecs (r :: rest) ++ tail) 3 = .ok (UInt8.ofNat r.status) := by rw [henc]; simp [idx, toBE, pure, Except.pure]
+    have hd4 : (encExtRecs (r :: rest) ++ tail).drop 4 = data ++ (encExtRecs rest ++ tail) := by rw [henc]; simp [toBE]
+    simp only [hbe, hnot, Bool.false_eq_true, if_false, i3, hsz, bind, Except.bind, hd4, toNat_ofNat_lt hst]
+    have h1 : ¬ (data ++ (encExtRecs rest ++ tail)).length < data.length := by simp
+    rw [if_neg h1]
+    have h2 : (data ++ (encExtRecs rest ++ tail)).take data.length = data := by simp
+    have h3 : (data ++ (encExtRecs rest ++ tail)).drop data.length = encExtRecs rest ++ tail := by simp
+    rw [h2, h3]
+    have hnd' : ((r.id :: seen) ++ rest.map (·.id)).Nodup := by
+      rw [List.map_cons] at hnd
+      obtain ⟨n1, n2, n3⟩ := List.nodup_append.1 hnd
+      obtain ⟨m1, m2⟩ := List.nodup_cons.1 n2
+      rw [List.cons_append, List.nodup_cons]
+      refine ⟨?_, List.nodup_append.2 ⟨n1, m2, fun a ha b hb => n3 a ha b (List.mem_cons_of_mem _ hb)⟩⟩
+      intro hm
+      rcases List.mem_append.1 hm with hm | hm
+      · exact n3 r.id hm r.id (by simp) rfl
+      · exact m1 hm
+    rw [ih _ _ (fun x hx => h x (by simp [hx])) hnd']
+    have : ({ id := r.id, status := r.status, ext := [(rec, data)] } : DtcRec) = r := by cases r; simp_all
+    rw [this]; simp
+
+
+/-- whether an all-zero tail of `n` bytes is read as a record of DTC 0: its size is configured, a whole record fits, and all-zero DTCs are not ignored -/
+def zeroRead (c : DtcCfg) (n : Nat) : Bool :=
+  match extSizeFor c.ext 0 with
+  | .ok z => decide (n ≥ z + 4) && !c.ign
+  | .error _ => false
+
+theorem ext16_zeros_not_read (c : DtcCfg) (rec n : Nat) (seen : List Nat) (acc : List DtcRec) (hz : zeroRead c n = false) :
+    extByRecordLoop c rec (zeros n) seen acc = if n = 0 then .ok acc else if c.tol then .ok acc else .error .invalid := by
+  rw [extByRecordLoop]
+  have hl : (zeros n).length = n := by simp [zeros]
+  by_cases h0 : n = 0
+  · rw [dif_pos (by rw [hl]; exact h0), if_pos h0]; rfl
+  · rw [dif_neg (by rw [hl]; exact h0), if_neg h0]
+    unfold zeroRead at hz
+    cases hs : extSizeFor c.ext 0 with
+    | error e =>
+      simp only [hs, allZero_zeros, Bool.not_false, Bool.and_self, if_true]
+      cases c.tol <;> rfl
+    | ok z =>
+      rw [hs] at hz
+      simp only [hs, hl, hz, allZero_zeros, Bool.not_false, Bool.and_self, if_true]
+      cases c.tol <;> rfl
+
+/-- **tolerated** (0x16): zero bytes that are not read as a record of DTC 0 change nothing -/
+theorem ext16_pad_tolerated (c : DtcCfg) (rec : Nat) (rs : List DtcRec) (n : Nat) (ht : c.tol = true) (hz : zeroRead c n = false)
+    (h : ∀ r ∈ rs, ExtRecOk c rec r) (hnd : (rs.map (·.id)).Nodup) :
+    extByRecordLoop c rec (encExtRecs rs ++ zeros n) [] [] = .ok rs := by
+  rw [extByRecordLoop_prefix c rec rs _ [] [] h (by simpa using hnd), ext16_zeros_not_read c rec n _ _ hz]
+  simp [ht]
+
+/-- **not tolerated** (0x16): the same bytes make the reply invalid -/
+theorem ext16_pad_rejected (c : DtcCfg) (rec : Nat) (rs : List DtcRec) (n : Nat) (ht : c.tol = false) (hn : 0 < n) (hz : zeroRead c n = false)
+    (h : ∀ r ∈ rs, ExtRecOk c rec r) (hnd : (rs.map (·.id)).Nodup) :
+    extByRecordLoop c rec (encExtRecs rs ++ zeros n) [] [] = .error .invalid := by
+  rw [extByRecordLoop_prefix c rec rs _ [] [] h (by simpa using hnd), ext16_zeros_not_read c rec n _ _ hz]
+  simp [ht]; omega
+
+/-- one whole all-zero record with `ignore_all_zero_dtc` off is read as DTC 0, and what follows it is again a zero tail -/
+theorem ext16_zero_record (c : DtcCfg) (rec z n : Nat) (seen : List Nat) (acc : List DtcRec) (hs : extSizeFor c.ext 0 = .ok z) (hi : c.ign = false)
+    (hn : z + 4 ≤ n) (hseen : seen.contains 0 = false) :
+    extByRecordLoop c rec (zeros n) seen acc =
+      extByRecordLoop c rec (zeros (n - (z + 4))) (0 :: seen) (acc ++ [{ id := 0, status := 0, ext := [(rec, zeros z)] }]) := by
+  rw [extByRecordLoop]
+  have hl : (zeros n).length = n := by simp [zeros]
+  rw [dif_neg (by rw [hl]; omega)]
+  have hzr : (decide (n ≥ z + 4) && !c.ign) = true := by simp [hi]; omega
+  simp only [hs, hl, hzr, Bool.not_true, Bool.and_false, Bool.false_eq_true, if_false]
+  rw [dif_neg (by omega)]
+  obtain ⟨m, rfl⟩ : ∃ m, n = m + 4 := ⟨n - 4, by omega⟩
+  have hz4 : zeros (m + 4) = 0 :: 0 :: 0 :: 0 :: zeros m := by simp [zeros, List.replicate_succ]
+  have hbe : be3 (zeros (m + 4)) = 0 := by rw [hz4]; rfl
+  have i3 : idx (zeros (m + 4)) 3 = .ok 0 := by rw [hz4]; rfl
+  have hd4 : (zeros (m + 4)).drop 4 = zeros m := by rw [hz4]; rfl
+  simp only [hbe, hseen, Bool.false_eq_true, if_false, i3, hs, bind, Except.bind, hd4]
+  have h1 : ¬ (zeros m).length < z := by simp [zeros]; omega
+  rw [if_neg h1]
+  have h2 : (zeros m).take z = zeros z := by simp [zeros, List.take_replicate]; omega
+  have h3 : (zeros m).drop z = zeros (m + 4 - (z + 4)) := by simp [zeros, List.drop_replicate]
+  rw [h2, h3]; rfl
+
+/-- **known finding, as a theorem about the model**: two whole all-zero records with `ignore_all_zero_dtc` off are refused (the second DTC 0 is taken
+    for a duplicate), whatever `tolerate_zero_padding` says -/
+theorem ext16_two_zero_records_refused (c : DtcCfg) (rec z n : Nat) (seen : List Nat) (acc : List DtcRec) (hs : extSizeFor c.ext 0 = .ok z) (hi : c.ign = false)
+    (hn : 2 * (z + 4) ≤ n) (hseen : seen.contains 0 = false) :
+    extByRecordLoop c rec (zeros n) seen acc = .error .invalid := by
+  rw [ext16_zero_record c rec z n seen acc hs hi (by omega) hseen, extByRecordLoop]
+  have hl : (zeros (n - (z + 4))).length = n - (z + 4) := by simp [zeros]
+  rw [dif_neg (by rw [hl]; omega)]
+  have hzr : (decide (n - (z + 4) ≥ z + 4) && !c.ign) = true := by simp [hi]; omega
+  simp only [hs, hl, hzr, Bool.not_true, Bool.and_false, Bool.false_eq_true, if_false]
+  rw [dif_neg (by omega)]
+  obtain ⟨m, hm⟩ : ∃ m, n - (z + 4) = m + 4 := ⟨n - (z + 4) - 4, by omega⟩
+  rw [hm]
+  have hz4 : zeros (m + 4) = 0 :: 0 :: 0 :: 0 :: zeros m := by simp [zeros, List.replicate_succ]
+  have hbe : be3 (zeros (m + 4)) = 0 := by rw [hz4]; rfl
+  simp [hbe]
+
+/-- exactly one whole all-zero record (plus a shorter zero tail) with `ignore_all_zero_dtc` off: one more DTC 0, the tail handled as padding -/
+theorem ext16_one_zero_record (c : DtcCfg) (rec z n : Nat) (seen : List Nat) (acc : List DtcRec) (hs : extSizeFor c.ext 0 = .ok z) (hi : c.ign = false)
+    (hn : z + 4 ≤ n) (hn2 : n < 2 * (z + 4)) (hseen : seen.contains 0 = false) :
+    extByRecordLoop c rec (zeros n) seen acc =
+      if n = z + 4 ∨ c.tol = true then .ok (acc ++ [{ id := 0, status := 0, ext := [(rec, zeros z)] }]) else .error .invalid := by
+  rw [ext16_zero_record c rec z n seen acc hs hi hn hseen]
+  have hz : zeroRead c (n - (z + 4)) = false := by
+    unfold zeroRead; rw [hs]; simp; intro h; omega
+  rw [ext16_zeros_not_read c rec _ _ _ hz]
+  by_cases h0 : n - (z + 4) = 0
+  · rw [if_pos h0, if_pos (Or.inl (by omega))]
+  · rw [if_neg h0]
+    cases ht : c.tol with
+    | true => simp
+    | false => rw [if_neg (by simp), if_neg (by simp; omega)]
+
+
 /-! ### non-vacuity -/
 example : recordLoop true false false false false (encRecs false [{ id := 0x123456, status := 0x78 }] ++ zeros 5) [] =
     .ok [{ id := 0x123456, status := 0x78 }, { id := 0 }] := by
